@@ -169,4 +169,54 @@ def Frame.Fits : Frame → Prop
   | .crypto off data ko kl => VarintFits off ko ∧ VarintFits data.length kl
   | .ping => True
 
+/-! ## Notions used in the property statements -/
+
+/-- The documented answer for an extension list. -/
+def specExts (exts : List ExtItem) : Except Err Bytes :=
+  match firstHostName exts with
+  | some n => .ok (trimDot n)
+  | none => .error .notFound
+
+/-- The name is a literal host_name entry of the data: type byte 0, two-byte length, the name. -/
+def CarriedIn (x : Bytes) (d : Bytes) : Prop :=
+  ∃ k n, k + 3 + n ≤ x.length ∧ x.getD k 0 = 0 ∧ be16 (x.getD (k + 1) 0) (x.getD (k + 2) 0) = n ∧
+    d = trimDot (slice x (k + 3) (k + 3 + n))
+
+/-- What the TLS branch of `sniffGroup` answers for a complete record carrying `hs`. -/
+def tlsAnswer (hs : Bytes) : Except Err Bytes :=
+  match extractSni (.builtin hs) with
+  | .ok d => .ok (normalizeDomain d)
+  | .error e => .error e
+
+/-- Well-formed request head: a known method, no CRLF inside the request line or a header line,
+no colon inside a header name. -/
+def HttpHead.WF (h : HttpHead) : Prop :=
+  h.method ∈ httpMethods ∧ noCRLF (h.method ++ [32] ++ h.target) = true ∧
+  ∀ kv ∈ h.headers, noCRLF (kv.1 ++ [58] ++ kv.2) = true ∧ 58 ∉ kv.1
+
+/-- The block holds exactly the bytes `[off, stop)` of the stream `S`. -/
+def Within (S : Bytes) (b : Block) : Prop := b.stop ≤ S.length ∧ b.data = slice S b.off b.stop
+
+def covers (b : Block) (p : Nat) : Prop := b.off ≤ p ∧ p < b.stop
+
+/-- Output blocks are strictly separated: a gap of at least one byte between neighbours. -/
+def Separated (l : List Block) : Prop := l.Pairwise (fun a b => a.stop < b.off)
+
+/-- The successive `ReassembleCryptos` calls of one sniffing session, one per decrypted packet. -/
+def feedPayloads : List Block → List Bytes → Except Err (List Block)
+  | cr, [] => .ok cr
+  | cr, p :: ps =>
+    match reassemble cr p with
+    | .ok cr' => feedPayloads cr' ps
+    | .error e => .error e
+
+/-- The answer the stream sniffer gives for a ClientHello, after `NormalizeDomain`. -/
+def tcpAnswer (ch : ClientHello) : Except Err Bytes :=
+  match specResult ch with
+  | .ok d => .ok (normalizeDomain d)
+  | .error e => .error e
+
+/-- Characters of an ordinary host name as carried on the wire: no white space, colon or bracket. -/
+def isNameChar (c : Nat) : Bool := !isAsciiSpace c && c != 58 && c != 91 && c != 93
+
 end DaeVerif.C06
